@@ -112,6 +112,7 @@ func eval(e ast.Expr) (constant.Value, bool) {
 var sqlConsts = map[string]constant.Value{}
 
 func loadSQLConsts(dir string) {
+	var parsed []*ast.File
 	files, _ := filepath.Glob(filepath.Join(dir, "*.go"))
 	for _, fn := range files {
 		if strings.HasSuffix(fn, "_test.go") {
@@ -133,6 +134,53 @@ func loadSQLConsts(dir string) {
 						if bl, ok := vs.Values[i].(*ast.BasicLit); ok {
 							sqlConsts[nm.Name] = constant.MakeFromLiteral(bl.Value, bl.Kind, 0)
 						}
+					}
+				}
+			}
+		}
+		parsed = append(parsed, f)
+	}
+	// second pass: package-level  var X = strings.Join([]string{A, B, "c"}, ",")  over string constants (sql.DefaultSqlMode)
+	for _, f := range parsed {
+		for _, d := range f.Decls {
+			gd, ok := d.(*ast.GenDecl)
+			if !ok || gd.Tok != token.VAR {
+				continue
+			}
+			for _, sp := range gd.Specs {
+				vs := sp.(*ast.ValueSpec)
+				for i, nm := range vs.Names {
+					if i >= len(vs.Values) {
+						continue
+					}
+					call, ok := vs.Values[i].(*ast.CallExpr)
+					if !ok || src(call.Fun) != "strings.Join" || len(call.Args) != 2 {
+						continue
+					}
+					lit, ok := call.Args[0].(*ast.CompositeLit)
+					sep, ok2 := call.Args[1].(*ast.BasicLit)
+					if !ok || !ok2 || sep.Kind != token.STRING {
+						continue
+					}
+					sepS, _ := strconv.Unquote(sep.Value)
+					var parts []string
+					good := true
+					for _, el := range lit.Elts {
+						var v constant.Value
+						switch x := el.(type) {
+						case *ast.BasicLit:
+							v = constant.MakeFromLiteral(x.Value, x.Kind, 0)
+						case *ast.Ident:
+							v = sqlConsts[x.Name]
+						}
+						if v == nil || v.Kind() != constant.String {
+							good = false
+							break
+						}
+						parts = append(parts, constant.StringVal(v))
+					}
+					if good {
+						sqlConsts[nm.Name] = constant.MakeString(strings.Join(parts, sepS))
 					}
 				}
 			}
